@@ -22,6 +22,8 @@ type LocalStore struct {
 	workdir  string
 	manifest *manifest.Manager
 	stateMu  sync.Mutex
+	// lastState is the newest checkpoint written through this store (guarded by stateMu).
+	lastState AllocatorState
 }
 
 // OpenLocalStore opens a file-backed PD storage in workdir.
@@ -88,6 +90,15 @@ func (s *LocalStore) SaveAllocatorState(idCurrent, tsCurrent uint64) error {
 	s.stateMu.Lock()
 	defer s.stateMu.Unlock()
 
+	// Callers sample the counters before they get here, so a slower caller can arrive
+	// with older values than a checkpoint that is already on disk. The checkpoint must
+	// never move backwards, or a restart would hand out IDs/timestamps a second time.
+	if idCurrent < s.lastState.IDCurrent {
+		idCurrent = s.lastState.IDCurrent
+	}
+	if tsCurrent < s.lastState.TSCurrent {
+		tsCurrent = s.lastState.TSCurrent
+	}
 	payload, err := json.Marshal(AllocatorState{
 		IDCurrent: idCurrent,
 		TSCurrent: tsCurrent,
@@ -101,7 +112,11 @@ func (s *LocalStore) SaveAllocatorState(idCurrent, tsCurrent uint64) error {
 	if err := s.fs.WriteFile(tmp, payload, 0o644); err != nil {
 		return err
 	}
-	return s.fs.Rename(tmp, path)
+	if err := s.fs.Rename(tmp, path); err != nil {
+		return err
+	}
+	s.lastState = AllocatorState{IDCurrent: idCurrent, TSCurrent: tsCurrent}
+	return nil
 }
 
 // Close closes the underlying manifest manager.
